@@ -761,6 +761,22 @@ def gen_cases(ctx: core.Ctx) -> list[dict]:
         cases.append(decorate(rng, n, pairs, engine=eng(), entry="fn", order="random", probs="all1", thr=None, tag=f"union{big}"))
     for g in allg[: ctx.budget(120, 1500)]:
         cases.append(decorate(rng, big, g, engine=eng(), entry=rng.choice(["fn", "linker"]), tag=f"single{big}"))
+    # (2b) fine-grained thresholds: probabilities that differ from the 7th decimal on, threshold exactly on one of them or between two
+    # (a threshold rendered with fewer digits than it has moves edges across it); at most 9 decimals: longer decimal literals are
+    # read inexactly by DuckDB (DECIMAL -> DOUBLE) and SQLite, an engine matter excluded elsewhere
+    for _ in range(ctx.budget(60, 400)):
+        n = rng.randint(3, 10)
+        pairs = graphs.family(rng, rng.choice(["path", "cycle", "gnp", "star"]), n)
+        base = rng.choice([0.95, 0.5, 0.999999, 0.1234])
+        grid = [round(base + k * 1e-7, 9) for k in range(-4, 5)]
+        c = decorate(rng, n, pairs, engine=eng(), entry=rng.choice(["fn", "fn", "linker"]), thr=None, tag="fine_thr")
+        c["edges"] = [(a, b, min(1.0, rng.choice(grid))) for a, b, _ in c["edges"]]
+        ps = sorted({p for _, _, p in c["edges"]})
+        if not ps:
+            continue
+        t = rng.choice(ps) if rng.random() < 0.6 else round(rng.choice(ps) + rng.choice([-5e-8, 5e-8]), 9)
+        c["thr"], c["thr_kind"] = min(1.0, t), "prob"
+        cases.append(c)
     # (3) structured / adversarial families
     nmax = 300 if ctx.thorough else 40
     fams = ctx.budget(140, 1200)
